@@ -1,7 +1,8 @@
 //! op `fmt` (C17): decimal text + scale ⇒ the figure as the reporters print it.
-//! * `direct`: contract test of the composition every reporter position uses, on the real `Scale` of the
-//!   settings built from the case's configuration: `get_precision`, `round_dp_with_strategy(prec,
-//!   MidpointAwayFromZero)`, `{:.prec$}`.
+//! * `direct`: contract test of the two library calls every reporter position starts with, on the real
+//!   `Scale` of the settings built from the case's configuration: `get_precision` and
+//!   `round_dp_with_strategy(prec, MidpointAwayFromZero)` (the rounded decimal in its stored form; the
+//!   padding to `prec` decimals is observed through the reporters only).
 //! * `run`: when the case carries a journal (`text`), the answer of op `run` on it (real reporters); the
 //!   python side reads the figure off the report positions.
 use crate::util::*;
@@ -27,15 +28,13 @@ pub fn op_fmt(case: &Value, dir: &Path) -> Value {
             let prec = rs.scale.get_precision(x);
             (
                 prec,
-                format!(
-                    "{:.prec$}",
-                    x.round_dp_with_strategy(prec as u32, RoundingStrategy::MidpointAwayFromZero)
-                ),
+                x.round_dp_with_strategy(prec as u32, RoundingStrategy::MidpointAwayFromZero)
+                    .to_string(),
             )
         };
-        let (prec, shown) = one(&d);
-        let (_, neg) = one(&-d);
-        Ok(json!({"prec": prec, "shown": shown, "neg": neg}))
+        let (prec, rounded) = one(&d);
+        let (_, neg_rounded) = one(&-d);
+        Ok(json!({"prec": prec, "rounded": rounded, "neg_rounded": neg_rounded}))
     });
     let run = if case.get("text").is_some() {
         super::run::op_run(case, dir)
